@@ -25,7 +25,9 @@ Two write disciplines (`Mode`):
 
 * `inPlace` — `open(name,'wb')` (the file is truncated: `torn`), then the content;
   this is `SimulationResults._save_to_pickle/_save_to_json` before the `fix:` commit;
-* `atomic`  — open `<name>.tmp`, write it, `os.replace(tmp, name)`; the code after the fix.
+* `atomic`  — open `<name>.tmp`, write it, flush, fsync, close, `os.replace(tmp, name)`; the
+  code after the fix.  (What these steps mean below the level of a process kill — buffered,
+  handed to the OS, durable — is `Model/C07Power.lean`.)
 
 Mirrors `runner.py`: `_simulate_for_current_params_common` (`loadPart`,
 `firstRunC`, `loopC`, `finishVar`), `_simulate_serially_all_param_variation`
@@ -75,10 +77,18 @@ inductive SlotOp (C : Type)
   | write (c : C)
   /-- `open(name + '.tmp', 'wb')` -/
   | tmpOpen
-  /-- the content was written to the temp file -/
-  | tmpWrite
+  /-- the content was written to the temp file object (it sits in Python's buffer) -/
+  | tmpWrite (c : C)
+  /-- `output.flush()`: the buffer is handed to the operating system -/
+  | tmpFlush
+  /-- `os.fsync(output.fileno())`: what the operating system has becomes durable -/
+  | tmpFsync
+  /-- the `with` block closes the temp file (this flushes, it does not sync) -/
+  | tmpClose
   /-- `os.replace(name + '.tmp', name)` -/
   | rename (c : C)
+  /-- an `fsync` of the file under the results name (only a re-ordered protocol has it) -/
+  | syncMain
   deriving Repr
 
 variable {R T C : Type}
@@ -87,15 +97,19 @@ def Slot.apply (s : Slot C) : SlotOp C → Slot C
   | .trunc => ⟨.torn, s.tmp⟩
   | .write c => ⟨.valid c, s.tmp⟩
   | .tmpOpen => ⟨s.main, true⟩
-  | .tmpWrite => s
+  | .tmpWrite _ => s
+  | .tmpFlush => s
+  | .tmpFsync => s
+  | .tmpClose => s
   | .rename c => ⟨.valid c, false⟩
+  | .syncMain => s
 
 def Slot.applyAll (s : Slot C) (ops : List (SlotOp C)) : Slot C := ops.foldl Slot.apply s
 
 /-- `save_to_file(name)` as file-system steps -/
 def saveOps : Mode → C → List (SlotOp C)
   | .inPlace, c => [.trunc, .write c]
-  | .atomic, c => [.tmpOpen, .tmpWrite, .rename c]
+  | .atomic, c => [.tmpOpen, .tmpWrite c, .tmpFlush, .tmpFsync, .tmpClose, .rename c]
 
 /-- content of a partial-results file: merged results, `num_skipped_reps`,
     `current_rep`, and the parameters of the variation it was saved for -/
